@@ -16,7 +16,51 @@ R = "varpulis_runtime::engine::"
 ROUTER = R + "router::EventRouter"
 
 
+def run_source_types(ctx):
+    """route origins of a stream: the loader also routes to a stream the event types collected in `sequence_event_types`. A
+    source identifier (plain or aliased) may be resolved to its underlying event type and added there only for streams with
+    sequence operations (or named-pattern references); otherwise a derived stream `B = A_stream as a .where(..)` is routed
+    both A_stream's outputs and the raw events A_stream consumes, and processes events twice / events its upstream filtered out"""
+    from vpr import hirq as H
+    fn = "varpulis_runtime::engine::Engine::compile_ops_with_sequences"
+    h = ctx.need_hir(fn, rule="source-types")
+    # the sequence-ops flag, by role: a bool local initialised from `ops.iter().any(|op| matches!(op, FollowedBy | Not | Within))`
+    flags = set()
+    for s_ in H.lets(h["body"]):
+        if s_["pat"]["k"] == "bind" and s_.get("init") is not None:
+            txt = H.show(s_["init"], maxdepth=30)
+            pats = " ".join(H.pat_str(a["pat"]) for m in H.walk(s_["init"]) if m.get("k") == "match" for a in m["arms"])
+            if "StreamOp::FollowedBy" in pats and any(x.get("k") == "mcall" and x["method"] == "any" for x in H.walk(s_["init"])):
+                flags.add(s_["pat"]["name"])
+    if not flags:
+        ctx.anchor_lost("source-types", "no `has sequence operations` flag (ops.iter().any(matches FollowedBy|Not|Within)) found in compile_ops_with_sequences")
+        return
+    ms = [m for m in H.matches_on(h["body"], lambda t: t.endswith("ast::StreamSource")) if any("StreamSource::Sequence" in H.pat_str(a["pat"]) for a in m["arms"])]
+    if not ms:
+        ctx.anchor_lost("source-types", "the match over StreamSource that collects the source's event types was not found")
+        return
+    n = 0
+    for a in ms[0]["arms"]:
+        ps = H.pat_str(a["pat"])
+        heads = [v for v in ("Ident", "IdentWithAlias", "AllWithAlias") if ("StreamSource::%s(" % v) in ps or ("StreamSource::%s{" % v) in ps]
+        if not heads:
+            continue
+        pushes = [x for x in H.walk(a["body"]) if x.get("k") == "mcall" and x["method"] == "push"]
+        if not pushes:
+            continue
+        n += 1
+        g = a.get("guard")
+        gtxt = H.show(g) if g else ""
+        key = "arm:%s" % "|".join(heads)
+        if g is not None and (H.local_name(H.strip(g)) in flags or "contains_key" in gtxt):
+            ctx.ok("source-types", key + (":pattern-ref" if "contains_key" in gtxt else ""), "guarded by `%s`" % gtxt[:40], site=a["sp"])
+        else:
+            ctx.violation("source-types", key, "the %s source arm resolves the identifier to its underlying event type and adds it to the stream's routes without the sequence-operations test (guard: %s): a plain derived stream over another stream is routed the raw events as well as the upstream's outputs" % ("/".join(heads), gtxt or "none"), site=a["sp"])
+    ctx.floor("source-types", "identifier source arms that add route types", n, 3)
+
+
 def run(ctx):
+    ctx.guard("source-types", lambda: run_source_types(ctx))
     F = ctx.facts()
     b = ctx.need_body(ROUTER + "::add_route", rule="route-table")
     pushes = [(bb, t) for bb, t in b.calls() if t["callee"].endswith("Vec::<T, A>::push")]
